@@ -84,7 +84,7 @@ CHECKS["C03"] = dict(
          "under contract has a discharged safety VC and only allowed exception classes escape; EOF inside a string/f-string raises TokenError; "
          "ENDMARKER discipline (never_past_end). Prefix/mutation/character-soup fuzz is the bounded stand-in.",
     design_ref="DESIGN.md 5/C03",
-    note="not modelled: recursion/memory limits (known finding), functions without contract (regex dispatch, f-string frames, raw macro capture, builders "
+    note="not modelled: recursion/memory limits (known finding), functions without contract (the with-macro raw capture, builders "
          "not yet under contract) are covered by the stand-in only; three known findings listed in known_findings.json.",
     technique="VC generation from real function bodies (safety, variants, raises) discharged by z3/cvc5 + call-graph ranking",
 )
